@@ -248,7 +248,9 @@ impl CancellationToken {
                 self.cancel();
             }
 
-            if self.is_cancelled() {
+            // counted from the moment the stop was requested, whether or not the search
+            // is ready to honour it yet
+            if self.cancelled.load(Ordering::SeqCst) {
                 let a = p.after_cancel.fetch_add(1, Ordering::SeqCst) + 1;
                 if a > p.overrun_cap.load(Ordering::SeqCst) {
                     panic!("{}", OVERRUN_MESSAGE);
